@@ -135,7 +135,7 @@ class ResourceAlreadyExistsError(Fault):
 
     def __init__(self, fault_object, fault_string="Resource %r already exists"):
         super(ResourceAlreadyExistsError, self) \
-                               .__init__(self.CODE, fault_string % fault_object)
+                               .__init__(self.CODE, fault_string % (fault_object,))
 
 
 class Redirect(Fault):
